@@ -466,6 +466,32 @@ def run(chk):
     chk.ob("O15.4", "git fetch prunes deleted remote branches and fetches tags", ok, cmds[0] if cmds else gf, f"command words: {toks}" +
            ("" if ok else " — without --prune a branch deleted upstream keeps matching (origin/<branch> is stale) and is checked out instead of the documented fallback"),
            key="esrally/utils/git.py:fetch:prune-and-tags")
+    # every git command that names the repository directory interpolates the ESCAPED path (a raw path with a backslash / space is mangled by the shell-style splitting: git's error
+    # text then becomes the "branch list")
+    n_cmd = 0
+    for gfn in git.functions():
+        gps = params_of(gfn)
+        if not gps:
+            continue
+        raw = gps[0]
+        for c in [c for c in walk_body(gfn) if isinstance(c, ast.Call) and (dotted(c.func) or "").startswith("process.run_subprocess") and c.args]:
+            cmd = c.args[0]
+            interp = [v.value for v in cmd.values if isinstance(v, ast.FormattedValue)] if isinstance(cmd, ast.JoinedStr) else \
+                (list(cmd.right.elts) if isinstance(cmd, ast.BinOp) and isinstance(cmd.op, ast.Mod) and isinstance(cmd.right, ast.Tuple) else ([cmd.right] if isinstance(cmd, ast.BinOp) and isinstance(cmd.op, ast.Mod) else []))
+            if not interp:
+                continue
+            n_cmd += 1
+            bare = [x for x in interp if isinstance(x, ast.Name) and x.id == raw]
+            chk.ob("O15.4", f"git.{gfn.name}: the repository path is interpolated escaped", not bare, c, "" if not bare else f"`{raw}` is used raw in {short(cmd, 60)}",
+                   key=f"esrally/utils/git.py:{gfn.name}:escaped-path:{len([x for x in walk_body(gfn) if isinstance(x, ast.Call) and x.lineno < c.lineno and (dotted(x.func) or '').startswith('process.run_subprocess')])}")
+    chk.ob("O15.4", "git command sites located", n_cmd >= 8, git.tree, f"{n_cmd} command(s) with interpolated arguments")
+    # a fresh clone has ALL branches of the remote (a shallow / single-branch clone only knows the default branch: every version then falls back to it)
+    gcl = git.func("clone")
+    ctoks = " ".join(str(v.value) for x in ast.walk(gcl) if isinstance(x, ast.JoinedStr) for v in x.values if isinstance(v, ast.Constant)).split() + \
+        " ".join(x.value for x in ast.walk(gcl) if isinstance(x, ast.Constant) and isinstance(x.value, str) and "clone" in x.value).split()
+    narrowing = [t for t in ctoks if t.startswith(("--depth", "--single-branch", "--shallow", "--branch", "-b", "--filter", "--no-tags"))]
+    chk.ob("O15.4", "git clone fetches every branch (no --depth / --single-branch / --branch)", "clone" in ctoks and not narrowing, gcl, f"command words: {[t for t in ctoks if not t.startswith('%')]}" +
+           ("" if not narrowing else f" — {narrowing} leaves only the default branch: the best match for every version is then the default branch"), key="esrally/utils/git.py:clone:all-branches")
     fcalls = [c for c in walk_body(up) if isinstance(c, ast.Call) and dotted(c.func) == "git.fetch"]
     rb = [c for c in walk_body(up) if isinstance(c, ast.Call) and dotted(c.func) == "git.branches" and "self.remote" in u(c)]
     ok = bool(fcalls) and bool(rb) and all(gu.dominated_by_nodes(gu.node_of(b_), [gu.node_of(f_) for f_ in fcalls]) for b_ in rb) or (not fcalls and bool(rb))
@@ -475,6 +501,13 @@ def run(chk):
         ok = bool(anyf)
     chk.ob("O15.4", "remote branches are listed after a fetch", ok, rb[0] if rb else up, "")
     cos = [n for n in walk_body(up) if isinstance(n, ast.Call) and dotted(n.func) == "git.checkout"]
+    # a checkout of the selected local branch may be skipped only when that very branch is checked out already: the only test on the current branch is (in)equality with the selection
+    cbt = [f_ for c in cos for f_ in pat.fact_nodes(c) if any(isinstance(x, ast.Call) and dotted(x.func) == "git.current_branch" for x in ast.walk(f_))]
+    for f_ in cbt:
+        ok = pat.is_(f_, "git.current_branch(E_d) != V_b")
+        chk.ob("O15.4", "checkout skipped only if the current branch EQUALS the selected one", ok, f_, u(f_) + ("" if ok else " — a branch whose name merely relates to the selection (suffix, prefix, ...) is kept: `8.8` stays checked out when `8` was selected"),
+               key="esrally/utils/repo.py:RallyRepository.update:skip-only-if-equal")
+    chk.ob("O15.4", "current-branch test located", len(cbt) >= 1, up, f"{len(cbt)} test(s)")
     # the revision pinned for later loads (workers re-load with it) is the head AFTER the ref was switched: no checkout / rebase can follow a revision read
     revw = [n for n in walk_body(up) if isinstance(n, ast.Assign) and any(is_self_attr(t, "revision") for t in n.targets) and isinstance(n.value, ast.Call) and last_attr(n.value.func) == "head_revision"]
     movers = [n for n in walk_body(up) if isinstance(n, ast.Call) and dotted(n.func) in ("git.checkout", "git.rebase", "git.pull", "git.fetch")]
